@@ -562,6 +562,11 @@ Eval(e, S) ==
                          ELSE LET c == StaticOwner(x.s, e.c, e.f)
                                   nv == Conv(TypeName(FieldDecl(x.s, c, e.f).t), x.v)
                               IN R(nv, SetStatic(x.s, c, e.f, nv))
+     \* an unqualified call m(args) written in a static method (there is no 'this') is a static call in the class whose code is running
+     [] e.k = "mcall" /\ e.o.k = "this" /\ This(S) = 0 /\ CtxClass(S) # "" ->
+                         LET a == EvalList(e.a, S) IN
+                         IF ~Ok(a.s) THEN R(VVoid, a.s)
+                         ELSE LET r == CallMethod(a.s, 0, CtxClass(S), e.m, a.vs, StaticTypes(S, e.a), FALSE) IN R(r.v, DropGroup(r.s, a.vs))
      [] e.k = "mcall" -> LET o == Eval(e.o, S)  a == EvalList(e.a, o.s) IN
                          IF ~Ok(a.s) THEN R(VVoid, a.s)
                          ELSE IF o.v.r = 0 THEN R(VVoid, Fail(a.s, "null"))
